@@ -2138,10 +2138,14 @@ impl HttpsProxy {
             crate::router::HstsOrigin::Explicit
         };
 
-        listener.set_tags(front.hostname.to_owned(), front.tags.to_owned());
+        // tags are recorded once the route is in (same order as the HTTP
+        // proxy): a rejected frontend must not overwrite the hostname's tags
+        let hostname = front.hostname.to_owned();
+        let tags = front.tags.to_owned();
         listener
             .add_https_front_with_hsts_origin(front, hsts_origin)
             .map_err(ProxyError::AddFrontend)?;
+        listener.set_tags(hostname, tags);
         Ok(None)
     }
 
